@@ -4,8 +4,9 @@
 (*                                                                                                *)
 (* An operation is  [m: deploy | method | terminate | unknown | fund | wait,                       *)
 (*                   arg: argument class, amt: pay-amount class, gas: gas class, who: caller role, *)
-(*                   pair: BOOLEAN (the block also carries, first, the same call with too little   *)
-(*                   gas: two contract transactions share one VM environment)].                    *)
+(*                   pair: "no" | "same" | "term" (the block also carries, FIRST, an attempt with  *)
+(*                   too little gas by the same sender - of the same call, or of a termination:    *)
+(*                   two contract transactions share one block state and one VM environment)].     *)
 (* The lifecycle (deployed? how far initialised? funded? terminated?) only STEERS the generator   *)
 (* towards deep states: a well-formed operation by the right caller with enough gas is expected to*)
 (* advance it, everything else is expected to leave it where it is.  Nothing here is a verdict:    *)
@@ -19,6 +20,7 @@ CONSTANTS Contracts,     \* contract kinds to generate for
           AmtClasses,    \* "zero" "low" "some" "big"
           GasClasses,    \* "zero" "small" "exact" "enough"
           Roles,         \* "owner" "other" "voter"
+          Deep,          \* TRUE: include the > 30000 blocks of waiting after which an oracle voting can be terminated
           WalkLen,       \* length of the exported random walks (simulation mode only)
           MaxDev,        \* an operation deviates from the method's well-formed default in at most MaxDev dimensions
           ExportOn
@@ -42,6 +44,7 @@ Methods(k) ==
       [] k = "sum"        -> {"invoke", "_sum"}
       [] k = "erc20"      -> {"transfer", "approve", "transferFrom"}
       [] k = "testcases"  -> {"test"}
+      [] k = "sft"        -> {"transferTo", "receive"}
       [] OTHER            -> {}
 
 Presets(k) == CASE k \in {"oraclelock", "refundlock"} -> {"base", "voted"}
@@ -56,17 +59,20 @@ DefAmt(k, m) == IF m = "deploy" THEN (IF Embedded(k) THEN "some" ELSE "zero")
 
 Dev(k, op) == (IF op.arg # "valid" THEN 1 ELSE 0) + (IF op.amt # DefAmt(k, op.m) THEN 1 ELSE 0)
               + (IF op.gas # "enough" THEN 1 ELSE 0) + (IF op.who # DefWho(k, op.m) THEN 1 ELSE 0)
-              + (IF op.pair THEN 1 ELSE 0)
+              + (IF op.pair # "no" THEN 1 ELSE 0)
 
 TxOps(k) == {[m |-> m, arg |-> a, amt |-> p, gas |-> g, who |-> r, pair |-> pr] :
                 m \in Methods(k) \cup {"deploy", "terminate", "unknown"},
-                a \in ArgClasses, p \in AmtClasses, g \in GasClasses, r \in Roles, pr \in BOOLEAN}
+                a \in ArgClasses, p \in AmtClasses, g \in GasClasses, r \in Roles, pr \in {"no", "same", "term"}}
 Ops(k) == {op \in TxOps(k) :
               /\ Dev(k, op) <= MaxDev
-              /\ (op.pair => Embedded(k) /\ op.gas \in {"exact", "enough"})
+              /\ (op.pair # "no" => Embedded(k) /\ op.gas \in {"exact", "enough"})
+              /\ (op.pair = "term" => op.m # "deploy")
               /\ (op.m = "terminate" => op.amt = "zero")}
-          \cup {[m |-> "fund", arg |-> "valid", amt |-> "big", gas |-> "enough", who |-> "other", pair |-> FALSE],
-                [m |-> "wait", arg |-> "valid", amt |-> "zero", gas |-> "enough", who |-> "other", pair |-> FALSE]}
+          \cup {[m |-> "fund", arg |-> "valid", amt |-> "big", gas |-> "enough", who |-> "other", pair |-> "no"],
+                [m |-> "wait", arg |-> "valid", amt |-> "zero", gas |-> "enough", who |-> "other", pair |-> "no"]}
+          \cup (IF Deep /\ k = "voting"
+                THEN {[m |-> "longwait", arg |-> "valid", amt |-> "zero", gas |-> "enough", who |-> "other", pair |-> "no"]} ELSE {})
 
 OpsOf == [k \in Contracts |-> Ops(k)]      \* constant: evaluated once
 
@@ -78,6 +84,7 @@ CanTerm(k, st) ==
       [] k = "multisig"   -> ~st.funded
       [] k = "oraclelock" -> w = "base"
       [] k = "refundlock" -> ~st.funded
+      [] k = "voting"     -> st.stage = 6
       [] OTHER            -> FALSE
 
 (* expected lifecycle effect of a method call in state st *)
@@ -116,6 +123,7 @@ Step(k, st, op) ==
     ELSE IF op.m = "wait" THEN
         (IF k = "voting" /\ st.stage = 2 THEN [st EXCEPT !.stage = 3]
          ELSE IF k = "refundlock" /\ st.stage = 2 THEN [st EXCEPT !.stage = 3] ELSE st)
+    ELSE IF op.m = "longwait" THEN (IF st.stage = 1 THEN [st EXCEPT !.stage = 6] ELSE st)
     ELSE IF ~WellFormed(op) THEN st
     ELSE IF op.m = "deploy" THEN
         (IF st.life = "none" /\ op.arg \in {"valid", "valid2"} /\ (Embedded(k) => Paid(op))
@@ -147,5 +155,5 @@ Export == IF ExportOn THEN PrintT(ToJson([c |-> c, w |-> w, path |-> hist'])) EL
 WalkExport == IF ExportOn /\ ((Len(hist) = WalkLen /\ hist[WalkLen].m = "wait") \/ (s.life = "dead" /\ Len(hist) >= 3 /\ Len(hist) <= WalkLen))
               THEN PrintT(ToJson([c |-> c, w |-> w, path |-> hist])) ELSE TRUE
 
-TypeOK == s.life \in {"none", "live", "dead"} /\ s.stage \in 0..5
+TypeOK == s.life \in {"none", "live", "dead"} /\ s.stage \in 0..6
 =============================================================================
